@@ -137,8 +137,8 @@ static void src_delay() {
     switch (g_cfg.src_lat) {
     case 0: return;
     case 1: if (rnd() & 1) photon::thread_yield(); return;
-    case 2: { auto r = rnd(); if (r % 3 == 0) photon::thread_usleep(1 + (r >> 8) % 60); else if (r % 3 == 1) photon::thread_yield(); return; }
-    default: { auto r = rnd(); if (r % 4 != 0) photon::thread_usleep(1 + (r >> 8) % 600); else photon::thread_yield(); return; }
+    case 2: { auto r = rnd(); if (r % 4 == 0) photon::thread_usleep(1 + (r >> 8) % 40); else if (r % 4 == 1) photon::thread_yield(); return; }
+    default: { auto r = rnd(); if (r % 2 == 0) photon::thread_usleep(1 + (r >> 8) % 300); else photon::thread_yield(); return; }
     }
 }
 
@@ -263,7 +263,7 @@ static void media_pause() {
     switch (g_cfg.media_wrap) {
     case 0: return;
     case 1: if (rnd() & 1) photon::thread_yield(); return;
-    default: { auto r = rnd(); if (r % 4 == 0) photon::thread_usleep(1 + (r >> 8) % 150); else if (r % 4 == 1) photon::thread_yield(); return; }
+    default: { auto r = rnd(); if (r % 8 == 0) photon::thread_usleep(1 + (r >> 8) % 40); else if (r % 8 < 3) photon::thread_yield(); return; }
     }
 }
 class YFile : public ForwardFile_Ownership {
@@ -696,7 +696,7 @@ int main(int argc, char** argv) {
     C.period_us = r.pick<uint64_t>({2000, 20000, 1000000});
     C.ttl_us = r.pick<uint64_t>({1000, 50000, 10000000});
     C.media_wrap = r.pick({0, 1, 2, 2});
-    C.media_sync_den = C.mode == 2 ? r.pick({0, 1, 1, 2, 8}) : r.pick({0, 0, 0, 16});    // fiemap sees an extent only once it is allocated
+    C.media_sync_den = C.mode == 2 ? r.pick({0, 2, 2, 4, 8}) : r.pick({0, 0, 0, 16});    // fiemap sees an extent only once it is allocated
     C.aligned_alloc = r.chance(1, 2);
     C.src_lat = r.pick({0, 1, 2, 2, 3});
     C.fault_den = r.pick({0, 0, 64, 16});
@@ -706,6 +706,7 @@ int main(int argc, char** argv) {
     C.trimmer = r.chance(1, 3);
     C.prefetch_pct = r.pick({0, 0, 5, 15});
     C.sync_between = r.chance(1, 2);
+    if (C.media_sync_den && C.unit >= (256u << 10)) C.media_sync_den = std::max(C.media_sync_den, 8);
     if (C.bigiov) {
         C.nv = 1; C.rpv = 1; C.nfiles = 1; C.phases = 1; C.unit = 65536; C.mode = 1; C.cap_gb = 1; C.floor_bytes = 0;
         C.media_wrap = 0; C.media_sync_den = 0; C.src_lat = 0; C.fault_den = C.short_den = 0; C.n_evictors = 0; C.trimmer = false;
@@ -725,7 +726,7 @@ int main(int argc, char** argv) {
     if (C.nv * C.rpv > MAXR) C.rpv = MAXR / C.nv;
     g_nreaders = C.nv * C.rpv;
     // total read budget of one pool instance, shared by the readers
-    uint64_t budget = A.geti("reads", A.thorough() ? 12000 : 3000);
+    uint64_t budget = A.geti("reads", A.thorough() ? 8000 : 2000);
     if (vh::is_tsan()) budget /= 4;
     budget /= A.shape_div();
     if (C.unit >= (1u << 20)) budget /= 4; else if (C.unit >= (256u << 10)) budget /= 2;     // refills move whole units
